@@ -37,7 +37,7 @@ impl<L: Language> Analysis<L> for MinDepth {
     }
 }
 
-/// an analysis whose `modify` hook asserts equations itself: w(w(x)) = x over the Core language.  The hook unions the class it
+/// an analysis whose `modify` hook asserts equations itself: w(w(x)) = x and (p x c0) = c0 over the Core language.  The hook unions the class it
 /// is called on - possibly the class an insertion is creating at that moment - with an older class that has slots.
 #[derive(Default, Clone, Copy)]
 pub struct WrapElim;
@@ -55,6 +55,14 @@ impl Analysis<crate::langs::Core> for WrapElim {
                     if let Core::W(g) = &m {
                         inner.push(g.clone());
                     }
+                }
+            }
+        }
+        // and (p x c0) = c0: the class of a term with slots is united with a class that has none
+        for n in eg.enodes(id) {
+            if let Core::P(_, b) = &n {
+                if eg.enodes_applied(b).iter().any(|m| matches!(m, Core::C0())) {
+                    inner.push(b.clone());
                 }
             }
         }
